@@ -118,4 +118,35 @@ theorem unguarded_admits_after_wait :
 example : (run {} [.spawn 1, .spawn 2, .close, .spawn 3, .beginWait, .finish 1, .finish 2, .waitReturns]).map
     (fun s => (s.returned, s.running, s.seen)) = some (true, [], [3, 2, 1]) := by decide
 
+/-! ### Close may be called repeatedly — also concurrently -/
+
+/-- with the shutdown under a `sync.Once`, no number of concurrent `Close` calls in any interleaving closes the channel
+    twice: nobody panics (and the channel is closed as soon as anybody has been through) -/
+theorem closeOnce_never_panics (s : CSt) (h : CReach CStepNew s) : s.panicked = false ∧ (s.onceDone = false → s.chanClosed = false) := by
+  induction h with
+  | init => exact ⟨rfl, fun _ => rfl⟩
+  | step s s' _ hs ih =>
+    cases hs with
+    | once t ht =>
+      refine ⟨?_, fun h => by simp at h⟩
+      show (s.panicked || (!s.onceDone && s.chanClosed)) = false
+      rw [ih.1]
+      cases ho : s.onceDone with
+      | true => simp
+      | false => simp [ih.2 ho]
+
+/-- as it was, two concurrent calls can both find the channel open; the second close panics (finding F23) -/
+theorem closeLegacy_can_panic : ∃ s, CReach CStepOld s ∧ s.panicked = true := by
+  let s0 : CSt := {}
+  let s1 : CSt := { s0 with pc := setPc s0.pc 0 (if s0.chanClosed then 2 else 1) }
+  let s2 : CSt := { s1 with pc := setPc s1.pc 1 (if s1.chanClosed then 2 else 1) }
+  let s3 : CSt := { s2 with chanClosed := true, panicked := s2.panicked || s2.chanClosed, pc := setPc s2.pc 0 2 }
+  let s4 : CSt := { s3 with chanClosed := true, panicked := s3.panicked || s3.chanClosed, pc := setPc s3.pc 1 2 }
+  have r0 : CReach CStepOld s0 := .init
+  have r1 : CReach CStepOld s1 := .step _ _ r0 (.test s0 0 rfl)
+  have r2 : CReach CStepOld s2 := .step _ _ r1 (.test s1 1 (by simp [s1, s0, setPc]))
+  have r3 : CReach CStepOld s3 := .step _ _ r2 (.close s2 0 (by simp [s2, s1, s0, setPc]))
+  have r4 : CReach CStepOld s4 := .step _ _ r3 (.close s3 1 (by simp [s3, s2, s1, s0, setPc]))
+  exact ⟨s4, r4, by simp [s4, s3]⟩
+
 end KadDHT.C14
